@@ -98,7 +98,7 @@ macro "d_tac" : tactic => `(tactic| (
   (repeat' split at st)
   all_goals (first | (simp at st; done) | skip)
   all_goals (simp only [Option.some.injEq] at st; subst st)
-  all_goals (constructor <;> first | assumption | (simp only [upd, lockS, unlockS, newHelper, relocate, FreeObl, userCtx, nthr, cont_freeing, cont_tgt] at * <;>
+  all_goals (constructor <;> first | assumption | (simp only [upd, lockS, unlockS, newHelper, relocate, nestOn, csOn, nestOff, FreeObl, userCtx, nthr, cont_freeing, cont_tgt] at * <;>
     grind [upd, TOk, FOk, TPc.freeing, TPc.holds, TPc.tgt, K.fr, GK.fr, K.holds, mem_erase_nd, nd_erase, cont_freeing, cont_tgt, cont_ne_idle, → cont_holds, → tgt_holds]))))
 
 theorem invd_rlock (c : Cfg) {s s' : State} (hA : InvA c s) (h : InvD c s) (t : _)
